@@ -18,7 +18,8 @@ import (
 )
 
 type LabelExec struct {
-	EndRun  bool // set by an operation after which the model no longer describes the volume: the run ends without further checks
+	LastPar string // what the last parlabel batch consisted of
+	EndRun  bool   // set by an operation after which the model no longer describes the volume: the run ends without further checks
 	W       *drv.World
 	D       *DAG
 	M       *LabelModel
@@ -493,6 +494,7 @@ func (x *LabelExec) Apply(op drv.Op) (handled bool, v *drv.Violation, err error)
 			cleave []uint64 // supervoxels cleaved away (new body from the answer)
 			from   []uint64 // bodies merged ...
 			into   uint64   // ... into this one
+			write  func()   // a voxel write: its effect on the model
 		}
 		var plan []planned
 		cleaveOf := func(b uint64, svs []uint64, c string) planned {
@@ -509,12 +511,46 @@ func (x *LabelExec) Apply(op drv.Op) (handled bool, v *drv.Violation, err error)
 				big = append(big, b)
 			}
 		}
-		mode := r.IntN(5)
+		mode := r.IntN(6)
 		if m := os.Getenv("VERIF_PARMODE"); m != "" { // diagnosis only
 			mode = int(m[0] - '0')
 		}
 		chained := false
 		switch {
+		case mode == 5 && len(bodies) >= 2:
+			// a merge into body T while a voxel write gives T's (or the merged body's) supervoxel more voxels in one block:
+			// mapping and voxels are independent, so both must be fully applied
+			sh := append([]uint64(nil), bodies...)
+			r.Shuffle(len(sh), func(i, j int) { sh[i], sh[j] = sh[j], sh[i] })
+			tgt, src := sh[0], sh[1]
+			grow := pick(r, bs[pick(r, []uint64{tgt, src})])
+			b0 := [3]int{r.IntN(g.G[0]), r.IntN(g.G[1]), r.IntN(g.G[2])}
+			nb := [3]int{1, 1, 1}
+			data := make([]uint64, g.B*g.B*g.B)
+			i := 0
+			changed := 0
+			for z := 0; z < g.B; z++ {
+				for y := 0; y < g.B; y++ {
+					for xx := 0; xx < g.B; xx++ {
+						data[i] = lv.Vox[g.idx(b0[0]*g.B+xx, b0[1]*g.B+y, b0[2]*g.B+z)]
+						if (xx+2*y+3*z+int(op.N))%5 == 0 && data[i] != grow {
+							data[i] = grow
+							changed++
+						}
+						i++
+					}
+				}
+			}
+			if changed == 0 {
+				x.Skipped++
+				return true, nil, nil
+			}
+			v := op.V
+			plan = append(plan, mergeOf(tgt, []uint64{src}, "c1"),
+				planned{req: proto.Req{Client: "c2", Kind: "http", Method: "POST", URL: x.boxURL(v, b0, nb) + "?mutate=true", Body: u64sToBytes(data)},
+					desc: fmt.Sprintf("write giving supervoxel %d %d more voxels in block %v", grow, changed, b0), write: func() { x.M.SetBox(v, b0, nb, data) }})
+			w.Stats.Probe("concurrent-merge-and-voxel-write")
+			x.LastPar = "merge and voxel write"
 		case mode == 4 && len(bodies) >= 3:
 			// chained merges: X into T while Y is merged into X.  Either Y ends up in T with X (Y->X took effect first),
 			// or the merge into the vanished X is refused; both acknowledged means everything is in T.
@@ -523,6 +559,7 @@ func (x *LabelExec) Apply(op drv.Op) (handled bool, v *drv.Violation, err error)
 			plan = append(plan, mergeOf(sh[0], []uint64{sh[1]}, "c1"), mergeOf(sh[1], []uint64{sh[2]}, "c2"))
 			chained = true
 			w.Stats.Probe("concurrent-chained-merges")
+			x.LastPar = "chained merges"
 		case mode == 0 && len(big) > 0:
 			b := pick(r, big)
 			svs := append([]uint64(nil), bs[b]...)
@@ -535,11 +572,13 @@ func (x *LabelExec) Apply(op drv.Op) (handled bool, v *drv.Violation, err error)
 				plan = append(plan, cleaveOf(b, []uint64{svs[i]}, fmt.Sprintf("c%d", i+1)))
 			}
 			w.Stats.Probe("concurrent-cleaves-of-one-body")
+			x.LastPar = "cleaves of one body"
 		case mode == 1 && len(bodies) >= 3:
 			sh := append([]uint64(nil), bodies...)
 			r.Shuffle(len(sh), func(i, j int) { sh[i], sh[j] = sh[j], sh[i] })
 			plan = append(plan, mergeOf(sh[0], []uint64{sh[1]}, "c1"), mergeOf(sh[0], []uint64{sh[2]}, "c2"))
 			w.Stats.Probe("concurrent-merges-into-one-body")
+			x.LastPar = "merges into one body"
 		case mode == 3 && len(big) > 0 && len(bodies) >= 2:
 			// a cleave of body T and a merge INTO body T
 			b := pick(r, big)
@@ -551,6 +590,7 @@ func (x *LabelExec) Apply(op drv.Op) (handled bool, v *drv.Violation, err error)
 			}
 			plan = append(plan, cleaveOf(b, []uint64{bs[b][r.IntN(len(bs[b]))]}, "c1"), mergeOf(b, []uint64{pick(r, others)}, "c2"))
 			w.Stats.Probe("concurrent-cleave-of-and-merge-into-one-body")
+			x.LastPar = "cleave of and merge into one body"
 		default:
 			if len(big) == 0 || len(bodies) < 3 {
 				x.Skipped++
@@ -566,6 +606,7 @@ func (x *LabelExec) Apply(op drv.Op) (handled bool, v *drv.Violation, err error)
 			r.Shuffle(len(others), func(i, j int) { others[i], others[j] = others[j], others[i] })
 			plan = append(plan, cleaveOf(b, []uint64{bs[b][r.IntN(len(bs[b]))]}, "c1"), mergeOf(others[0], []uint64{others[1]}, "c2"))
 			w.Stats.Probe("concurrent-cleave-and-merge")
+			x.LastPar = "cleave and merge of other bodies"
 		}
 		if len(plan) == 0 {
 			x.Skipped++
@@ -593,6 +634,10 @@ func (x *LabelExec) Apply(op drv.Op) (handled bool, v *drv.Violation, err error)
 			}
 			if rp.Status != 200 {
 				return true, x.viol("write-ack", "valid concurrent label operation refused", fmt.Sprintf("%s (issued together with %d others) -> %d %s", pl.desc, len(plan)-1, rp.Status, trunc(rp.Body))), nil
+			}
+			if pl.write != nil {
+				pl.write()
+				continue
 			}
 			resp := parseMutResp(rp.Body)
 			if id, ok := resp["MutationID"]; ok {
